@@ -429,9 +429,10 @@ fn busy(run: &mut Run, i: usize, op: &Value, last: &mut [usize; 3]) -> Value {
         else if mode == "lock" { askar_session_update(H(hb), 0, c.ptr, nm.ptr, ByteBuf { len: 8, data: v.as_ptr() }, std::ptr::null(), -1, Some(cb_unit), id1) }
         else { askar_session_fetch_all(H(hb), std::ptr::null(), std::ptr::null(), -1, std::ptr::null(), 0, 0, Some(cb_ptr), id1) }
     };
-    let r2 = unsafe { match target { "scan" => askar_scan_free(H(hb)), "store" => askar_store_close(H(st), Some(cb_unit), id2), _ => askar_session_close(H(hb), commit as i8, Some(cb_unit), id2) } };
+    let nocb = op["nocb"].as_bool().unwrap_or(false) && target == "session";
+    let r2 = unsafe { match target { "scan" => askar_scan_free(H(hb)), "store" => askar_store_close(H(st), Some(cb_unit), id2), _ => askar_session_close(H(hb), commit as i8, if nocb { None } else { Some(cb_unit) }, id2) } };
     let (_, v1) = run.finish(i, op, r1, id1, true);
-    let v2 = if is_scan { None } else { run.finish(i, op, r2, id2, true).1 };
+    let v2 = if is_scan { None } else if nocb { run.finish(i, op, r2, id2, false).1 } else { run.finish(i, op, r2, id2, true).1 };
     if let Some(CbVal::Ptr(0, p)) = &v1 { if *p != 0 { unsafe { askar_entry_list_free(P(*p as *const u8)) }; } }
     let call = v1.as_ref().map_or("none".to_string(), |v| code_name(v.code()));
     let close = if is_scan { code_name(r2) } else { v2.as_ref().map_or("none".to_string(), |v| code_name(v.code())) };
@@ -443,14 +444,14 @@ fn busy(run: &mut Run, i: usize, op: &Value, last: &mut [usize; 3]) -> Value {
         let (_, v3) = aux(run, i, op, |id| unsafe { if is_scan { askar_scan_next(H(hb), Some(cb_ptr), id) } else { askar_session_count(H(hb), std::ptr::null(), std::ptr::null(), Some(cb_i64), id) } });
         if let Some(CbVal::Ptr(0, p)) = &v3 { if *p != 0 { unsafe { askar_entry_list_free(P(*p as *const u8)) }; } }
         after = v3.as_ref().map_or("none".to_string(), |v| code_name(v.code()));
-        if !(is_scan && after == "Success") { break; }
+        if !((is_scan || nocb) && after == "Success") { break; }
         polls += 1;
         std::thread::sleep(Duration::from_millis(20));
     }
     let diag = format!("mode={} target={} commit={} txn={} lock_held={} entry-returns=(call:{}, close:{}) delivered=(call:{}, close:{}, later-use:{}) polls-after-scan-free={}",
         mode, target, commit, op["txn"], lock_held, code_name(r1), code_name(r2), call, close, after, polls);
     // the oracle's own reading of the property: Busy or Success for the close (nothing else), the handle is dead afterwards
-    if close != "Success" && close != "Busy" { run.fail(i, op, format!("busy:{}:close->{}", target, close), json!({"diag": diag, "error": current_error()})); }
+    if !nocb && close != "Success" && close != "Busy" { run.fail(i, op, format!("busy:{}:close->{}", target, close), json!({"diag": diag, "error": current_error()})); }
     if after == "Success" { run.fail(i, op, format!("busy:{}:handle-usable-after-close", target), json!({"diag": diag})); }
     if r1 != 0 || r2 != 0 { run.fail(i, op, format!("busy:{}:entry-returned-error", target), json!({"diag": diag})); }
     // tidy up
@@ -487,6 +488,10 @@ pub fn logger_child(case: &Value) -> Value {
     let level = case["level"].as_i64().unwrap_or(5) as i32;
     let (with_enabled, with_flush) = (case["enabled"].as_bool().unwrap_or(false), case["flush"].as_bool().unwrap_or(false));
     ENABLED_MAX.store(case["enabled_max"].as_u64().unwrap_or(5) as usize, AO::SeqCst);
+    if case["clear_first"].as_bool().unwrap_or(false) {
+        // `askar_clear_custom_logger` with no logger installed: a no-op (and the logger can still be installed afterwards)
+        unsafe { askar_clear_custom_logger() };
+    }
     if case["default_first"].as_bool().unwrap_or(false) {
         // the other order: the default logger first, then the custom one is refused
         let d = unsafe { askar_set_default_logger() };
